@@ -127,6 +127,8 @@ class Backend:
         if self.kind == "pol":
             data = {cn: [r[j] for r in rows] for j, (cn, _) in enumerate(tspec["schema"])}
             df = pl.DataFrame(data, schema={cn: pl_dtype(dt) for cn, dt in tspec["schema"]})
+            # C10: the user's frame must come out of every pipeline untouched (kept with a snapshot, see source_frame_problems)
+            self.sources = getattr(self, "sources", [])[-8:] + [(tspec["name"], df, df.clone(), list(df.columns), dict(df.schema))]
             return pdt.Table(df, name=tspec["name"])
         import sqlalchemy as sqa
 
@@ -289,6 +291,21 @@ class ExprBuilder:
         if op.startswith("dt."):
             return getattr(x.dt, op[3:])(*rest, **kw)
         return getattr(x, op)(*rest, **kw)
+
+
+def source_frame_problems(backend, names):
+    """The polars frames handed to Table(...) for the tables `names`: same columns, schema and cells as when they were made."""
+    probs = []
+    for name, df, snap, cols, schema in getattr(backend, "sources", []):
+        if name not in names:
+            continue
+        if list(df.columns) != cols:
+            probs.append(f"source frame of `{name}`: columns changed to {list(df.columns)}")
+        elif dict(df.schema) != schema:
+            probs.append(f"source frame of `{name}`: schema changed")
+        elif not df.equals(snap):
+            probs.append(f"source frame of `{name}`: cells changed")
+    return probs
 
 
 class RealRun:
